@@ -19,6 +19,7 @@ EXPLANATION = (
     "the property states); (R5) the cached width is stored and returned only under the 'no edges to ignore' test; (R6) the per-walk repetition cap of the walk cover model is the tabled provider "
     "|E|*|V| and caps are only lowered to 1 for non-SCC edges (a smaller cap makes k = width infeasible); (R7) the demands fed to the width computation are "
     "1 per non-ignored edge (DAG), the un-capped multiplicity per condensation edge lowered by 1 per ignored edge, and 1 per non-trivial SCC "
+    "(R8) the safety optimisations both cover searches run under conform to the frozen table (rows serving C05, including how the protection sets are built).  "
     "(0 iff all member edges are ignored).  NOT decided: cover "
     "optimality, width == minimum (min-max identity), correctness of the min-cost-flow reduction."
 )
